@@ -56,10 +56,10 @@ CHECKS = {
  "C19": (MC, "exhaustive enumeration of multigraphs through the real spanning-tree code with a flood-simulation oracle; exhaustive enumeration of link/switch event histories on a closed system of real switches, real LLDP discovery and the real FLOOD action (netsim); exhaustive probe codec lattice",
          "G: every multigraph on 2-4 switches (thorough 5) over a 7-element per-pair alphabet (none, one-way either way, bidirectional, parallel, mixed), dpids in and against sorted order. H: every sequence of <=3 (quick) / <=4 events on a triangle and <=2 / <=3 on a square with a diagonal, events = a link going down / up / one-way in either direction, switch disconnect / connect; after each event and settling under the virtual clock: adjacency == physical directed links, LinkEvents alternate, a frame really flooded from every switch reaches every switch of its component exactly once and is delivered on host-facing ports. P: probe encode/decode for 4^6 (thorough 4^8) dpids x 8 port numbers.",
          "Settling = three send cycles 4 s apart + expiry + one more cycle; a disconnected switch is treated as gone; reconnecting switches come back with default port configuration; no self-loops.", "DESIGN.md 4 C19"),
- "C10": (FE, "exhaustive single-field (and version+length double) corruption and truncation of a valid instance of every message type, injected into the real controller I/O loop (OpenFlow_01_Task.run) and the real switch I/O loop (RecocoIOLoop.run), both driven by hand as generators with a hostile connection between two benign ones, under an execution budget",
+ "C10": (MC, "exhaustive single-field (and version+length double) corruption and truncation of a valid instance of every message type, injected into the real controller I/O loop (OpenFlow_01_Task.run) and the real switch I/O loop (RecocoIOLoop.run), both driven by hand as generators with a hostile connection between two benign ones, under an execution budget",
          "For 36 valid message instances (all 22 types, stats variants, carriers with embedded messages): every header length 0..len+8, every type byte, version values, every embedded action/queue/stats length over a boundary set, every truncation point followed by EOF or by valid traffic, a bad version combined with an overstated length; placed first / before / between / after valid traffic, glued into one read or not. Oracle: the step terminates within the budget, the loop generator stays alive and keeps selecting on the siblings, siblings receive exactly their messages, on the hostile connection every delivered message is a unit of the reference framing (never built from two messages or from bytes inside another message), malformed units are answered with an error or the connection is closed, nothing is delivered after close.",
          "Reference framing and structural validator mc/refs/ofwire_c10.py; non-termination decided by a sys.monitoring line budget; fake socket / listener objects.", "DESIGN.md 4 C10"),
- "C15": (FE, "exhaustive truncation and byte-corruption of a corpus of valid frames covering every parser path, each mutant parsed directly and through a PacketIn event, walked, packed, printed and dumped under a non-termination budget",
+ "C15": (EX, "exhaustive truncation and byte-corruption of a corpus of valid frames covering every parser path, each mutant parsed directly and through a PacketIn event, walked, packed, printed and dumped under a non-termination budget",
          "For 73 corpus frames (mc/refs/pktcorpus.py): every truncation length; every byte position x {0x00, 0xff, b^1, b^0x80, b+1} (quick) / all 255 alternatives for the first 64 bytes (thorough); truncation x corruption of every position below the cut (thorough); checksum-repaired variants for ICMPv6. Oracle: ethernet(raw=...) and PacketIn.parsed return; walking .next terminates in bytes/None; a layer that failed has parsed == False and kept its raw input; pack(), str(), dump() return. Violations are keyed by phase and raising site, so a new site is a new violation.",
          "Backward-jump budget via sys.monitoring decides non-termination; corpus built without importing pox.", "DESIGN.md 4 C15"),
  "C08": (MC, "breadth-first exploration over canonical states of a real POXCore (choice-sequence explorer with deviation-bounded callback behaviours, reference rendezvous model), exhaustive name-collision lattice, and controlled-thread exploration of two concurrent quit() calls",
